@@ -35,6 +35,16 @@ pub struct Case {
     /// (the timers run from Tune on, so at least one timer deadline passes during the handshake)
     #[serde(default)]
     pub slow_open_pct: Option<u8>,
+    /// the server does not feed whole frames but one long frame in pieces, one piece per feed
+    /// tick, so that more than two intervals pass without any frame being completed (received
+    /// bytes count as traffic whether or not they complete a frame)
+    #[serde(default)]
+    pub trickle: bool,
+    /// the transport accepts nothing for 1.2-1.6 intervals (beginning 0.3 intervals after the
+    /// start) while a publisher keeps the output buffer non-empty; afterwards the client is idle
+    /// and must resume its heartbeats
+    #[serde(default)]
+    pub stall_pct: Option<u8>,
 }
 
 const LATE: Duration = Duration::from_millis(900);
@@ -54,7 +64,9 @@ pub fn exec(c: &Case) -> Outcome {
         },
         ..Default::default()
     };
-    let mut sess = open_session(&ccfg, scfg, vec![], AutoBroker::new(1));
+    let mut broker = AutoBroker::new(1);
+    broker.auto_grant = false; // a deliberate stall must not make the broker spin
+    let mut sess = open_session(&ccfg, scfg, vec![], broker);
     let mut conn = match sess.conn.take() {
         Some(c) => c,
         None => {
@@ -70,10 +82,23 @@ pub fn exec(c: &Case) -> Outcome {
     let hdur = Duration::from_secs(h);
     // window: long enough for two heartbeat periods plus the 2h death timer
     let window = if h == 0 { Duration::from_millis(2500) } else { hdur * 3 + Duration::from_millis(1000) };
+    // optional stall of the transport (needs a publisher that keeps data queued)
+    let stall: Option<(Duration, Duration)> = match c.stall_pct {
+        Some(p) if h > 0 => {
+            let from = Duration::from_millis(h * 300);
+            Some((from, from + Duration::from_millis(h * 10 * (120 + p as u64 % 41))))
+        }
+        _ => None,
+    };
+    let window = match stall {
+        Some((_, to)) => to + hdur * 2 + Duration::from_millis(1500),
+        None => window,
+    };
+    let publish_pct = if stall.is_some() { Some(c.publish_pct.unwrap_or(0) % 30) } else { c.publish_pct };
     // optional publisher
     let stop = Arc::new(AtomicBool::new(false));
     let mut publisher = None;
-    if let Some(pct) = c.publish_pct {
+    if let Some(pct) = publish_pct {
         if h > 0 {
             let every = Duration::from_millis((h * 1000) * (20 + pct as u64 % 130) / 100);
             match conn.open_channel(None) {
@@ -105,13 +130,34 @@ pub fn exec(c: &Case) -> Outcome {
     let handshake_end = wire.out_len();
     // feed
     let feed_every = if h == 0 { Duration::from_millis(400) } else { Duration::from_millis((h * 1000) * (35 + c.feed_pct as u64 % 61) / 100) };
-    let silent_after = c.silent_after_ms.map(|ms| Duration::from_millis(ms as u64 % (if h == 0 { 1000 } else { h * 1500 }).max(1)));
-    let feeding_at_all = h > 0 || c.silent_after_ms.is_some();
+    let silent_after = c.silent_after_ms.filter(|_| c.stall_pct.is_none() || h == 0).map(|ms| Duration::from_millis(ms as u64 % (if h == 0 { 1000 } else { h * 1500 }).max(1)));
+    let feeding_at_all = h > 0 || silent_after.is_some();
     let mut last_server_byte = Instant::now(); // OpenOk was just delivered
     let mut died_at: Option<Instant> = None;
     let mut next_feed = start + feed_every;
+    let mut trickle_buf: Vec<u8> = Vec::new();
+    let mut trickle_n = 0u32;
+    let (mut stall_on, mut stall_over, mut stall_ended_at) = (false, false, None::<Instant>);
     loop {
         let now = Instant::now();
+        if let Some((from, to)) = stall {
+            let el = now.duration_since(start);
+            if !stall_on && !stall_over && el >= from {
+                wire.set_budget(Some(0));
+                stall_on = true;
+            }
+            if stall_on && el >= to {
+                // the publisher stops, the transport accepts everything again: an idle client
+                stop.store(true, Ordering::SeqCst);
+                // (taken before the budget is lifted: the flush that follows counts as a write
+                // after the stall)
+                stall_ended_at = Some(Instant::now());
+                wire.set_budget(None);
+                wire.grant(0);
+                stall_on = false;
+                stall_over = true;
+            }
+        }
         if wire.is_dropped() {
             died_at = Some(now);
             break;
@@ -140,7 +186,25 @@ pub fn exec(c: &Case) -> Outcome {
             } else {
                 AMQPFrame::Heartbeat(0)
             };
-            wire.push(encode(&f));
+            if c.trickle {
+                if trickle_buf.is_empty() {
+                    // a frame of about 250 bytes, cut so that it takes more than 2.6 intervals
+                    trickle_n += 1;
+                    trickle_buf = encode(&AMQPFrame::Method(
+                        0,
+                        amq_protocol::protocol::AMQPClass::Connection(amq_protocol::protocol::connection::AMQPMethod::Blocked(amq_protocol::protocol::connection::Blocked {
+                            reason: format!("{:0>240}", trickle_n),
+                        })),
+                    ));
+                }
+                let pieces = (hdur.as_millis() as u64 * 26 / 10 / (feed_every.as_millis() as u64).max(1) + 2) as usize;
+                let piece = (253 + pieces - 1) / pieces;
+                let n = piece.min(trickle_buf.len());
+                let chunk: Vec<u8> = trickle_buf.drain(..n).collect();
+                wire.push(chunk);
+            } else {
+                wire.push(encode(&f));
+            }
             last_server_byte = Instant::now();
             next_feed += feed_every;
         }
@@ -148,6 +212,10 @@ pub fn exec(c: &Case) -> Outcome {
     }
     let alive = died_at.is_none();
     stop.store(true, Ordering::SeqCst);
+    if alive && !trickle_buf.is_empty() {
+        // a server finishes the frame it is sending before it sends anything else (CloseOk)
+        wire.push(std::mem::take(&mut trickle_buf));
+    }
     let close = timed(CALL_TIMEOUT, "avh-c17-close", move || conn.close());
     if let Some(p) = publisher {
         let _ = p.join();
@@ -171,6 +239,10 @@ pub fn exec(c: &Case) -> Outcome {
         (st.write_calls.clone(), st.out.clone())
     };
     let after_handshake: Vec<Instant> = writes.iter().filter(|(off, _, _)| *off >= handshake_end).map(|(_, _, t)| *t).collect();
+    if std::env::var("AVH_DEBUG").is_ok() {
+        eprintln!("writes after handshake (s after start): {:?}", after_handshake.iter().map(|t| t.saturating_duration_since(start).as_secs_f64()).collect::<Vec<_>>());
+        eprintln!("died_at {:?}", died_at.map(|t| t.duration_since(start).as_secs_f64()));
+    }
     let d = crate::codec::decode_stream(&out);
     let heartbeats_sent = d.frames.iter().filter(|(r, f)| r.offset >= handshake_end && matches!(f, AMQPFrame::Heartbeat(_))).count();
     let end_of_life = died_at.unwrap_or_else(Instant::now);
@@ -189,6 +261,13 @@ pub fn exec(c: &Case) -> Outcome {
     for t in after_handshake.iter().chain(std::iter::once(&end_of_life)) {
         if *t > end_of_life {
             break;
+        }
+        // while the transport accepted nothing the client could not write: the clock for the
+        // next write starts when the stall ends
+        if let Some(se) = stall_ended_at {
+            if prev < se && *t >= se {
+                prev = se;
+            }
         }
         let gap = t.saturating_duration_since(prev);
         if gap > worst {
@@ -236,6 +315,12 @@ pub fn exec(c: &Case) -> Outcome {
     if c.slow_open_pct.is_some() {
         o.labels.push("slow-open-ok".into());
     }
+    if c.trickle {
+        o.labels.push("trickled-frame".into());
+    }
+    if stall_ended_at.is_some() {
+        o.labels.push("transport-stalled-with-data-queued".into());
+    }
     if heartbeats_sent > 0 {
         o.labels.push("client-heartbeats-seen".into());
     }
@@ -252,8 +337,10 @@ fn strat(t: Tier) -> BoxedStrategy<Case> {
         prop_oneof![1 => Just(None), 1 => any::<u8>().prop_map(Some)],
         any::<bool>(),
         prop_oneof![3 => Just(None), 1 => any::<u8>().prop_map(Some)],
+        prop::bool::weighted(0.25),
+        prop_oneof![4 => Just(None), 1 => any::<u8>().prop_map(Some)],
     )
-        .prop_map(|(client_hb, server_hb, feed_pct, silent_after_ms, publish_pct, feed_other, slow_open_pct)| Case {
+        .prop_map(|(client_hb, server_hb, feed_pct, silent_after_ms, publish_pct, feed_other, slow_open_pct, trickle, stall_pct)| Case {
             client_hb,
             server_hb,
             feed_pct,
@@ -261,6 +348,8 @@ fn strat(t: Tier) -> BoxedStrategy<Case> {
             publish_pct,
             feed_other,
             slow_open_pct,
+            trickle,
+            stall_pct,
         })
         .boxed()
 }
@@ -268,7 +357,7 @@ fn strat(t: Tier) -> BoxedStrategy<Case> {
 pub fn parts() -> Vec<Box<dyn PartDyn>> {
     vec![Box::new(Part::<Case> {
         name: "timing",
-        rule: "client and server heartbeat options from {0, 1, 2 (3 in thorough), 60} (negotiated = minimum, 0 if either is 0), the server sending a heartbeat or another frame every 35-95 % of the interval either for the whole window (3h+1 s) or only until a generated moment after which it is silent, the client idle or publishing every 20-150 % of the interval, one case in four against a slow server whose OpenOk arrives 1.1-1.6 intervals after Open (a timer deadline passes during the handshake); all cases of a run execute concurrently; oracle on the real clock: longest gap between client writes <= h + 0.9 s, a fed connection lives the whole window and closes Ok, silence ends the connection with MissedServerHeartbeats not before 2h - 0.05 s and (confirmed by re-execution) not after 2h + 0.9 s after the last server byte, h = 0 => no heartbeat frame and no failure in 2.5 s; every executed case is non-trivial; distinct by case hash",
+        rule: "client and server heartbeat options from {0, 1, 2 (3 in thorough), 60} (negotiated = minimum, 0 if either is 0), the server sending a heartbeat or another frame every 35-95 % of the interval either for the whole window (3h+1 s) or only until a generated moment after which it is silent, the client idle or publishing every 20-150 % of the interval, one case in four with the server's traffic being a single long frame trickled in pieces (no frame completes for more than two intervals), one in five with the transport accepting nothing for 1.2-1.6 intervals while a publisher keeps data queued (afterwards the client idles and must heartbeat again), one case in four against a slow server whose OpenOk arrives 1.1-1.6 intervals after Open (a timer deadline passes during the handshake); all cases of a run execute concurrently; oracle on the real clock: longest gap between client writes <= h + 0.9 s, a fed connection lives the whole window and closes Ok, silence ends the connection with MissedServerHeartbeats not before 2h - 0.05 s and (confirmed by re-execution) not after 2h + 0.9 s after the last server byte, h = 0 => no heartbeat frame and no failure in 2.5 s; every executed case is non-trivial; distinct by case hash",
         cases: |t| t.pick(40, 384),
         threads: 64,
         strategy: strat,
